@@ -47,6 +47,11 @@ def run(ctx):
         vlib.record_trace(ctx, bdir, "jitconc", ["gen", tg, 3 if q else 20, 8], tg, timeout=1800,
                           env={"VERIF_SEED": ctx.seed, "TSAN_OPTIONS": "halt_on_error=1:exitcode=66"})
         runs.append((f"{fl}-gen", tg))
+        if fl == "plain":
+            # cold start: threads racing on the first use of the host information (forked children, see harness)
+            tc = ctx.path(f"trace_{fl}_cold.ndjson")
+            vlib.record_trace(ctx, bdir, "jitconc", ["cold", tc, 150 if q else 2000, 8], tc, timeout=1800, env={"VERIF_SEED": ctx.seed})
+            runs.append((f"{fl}-cold", tc))
     nrec = 0
     for tag, path in runs:
         recs = vlib.read_ndjson(path)
@@ -66,7 +71,8 @@ def run(ctx):
     ctx.assumptions += ["lock events come from hook H3 in Lock::lock/unlock (emitted while the lock is held, sequence number taken under it)",
                         "call/return events are per-thread; the merge respects per-thread order and lock order only (no wall clock)",
                         "memory-level races that no hook observes are visible only through the TSan environment",
-                        "host information (CpuInfo::host, VirtMem::info) is initialised before the threads start (the property's premise)"]
+                        "host information (CpuInfo::host, VirtMem::info) is initialised before the threads start (the property's premise) in all legs but 'cold', "
+                        "which lets 8 threads of a fresh process race on its first use (plain build only: the tree initialises it with a same-value race)"]
     vlib.write_evidence(ctx, "model_checking",
         rule="events = Call/Acq/Rel/Ret events of 2..16 real threads on one JitRuntime/JitAllocator (+ Gen comparisons); "
              "distinct = distinct (operation, size, result, #critical sections) tuples and generated programs",
